@@ -176,6 +176,7 @@ def build():
     u.raw(v_sparse.BIT_LEMMAS, label='bit lemmas (V-SPARSE)')
     u.raw(v_sparse.SPEC.split('pub open spec fn sm_wf')[0] + '\n' + 'pub proof fn lemma_pad' + v_sparse.SPEC.split('pub proof fn lemma_pad')[1], label='dense-tail addressing spec (V-SPARSE)')
     u.raw(v_spvec.SPEC)
+    u.raw(v_spvec.MERGE_SPEC, label='merge lemmas + cursor model (V-SPVEC)')
     u.raw(SPEC)
     u.trust('rule S5 binary_search model (V-SPVEC); assume_specification <[T]>::swap (std documented behaviour)')
     u.trust('rule S6: `v[i].insert(a, b)` (IndexMut projection followed by a &mut method) replaced by a model function whose contract is the callee\'s own contract on element i and a frame on the others')
